@@ -502,11 +502,12 @@ impl Quantity {
             (self.value, other_converted.value)
         };
 
-        let cmp = lhs_value
-            .partial_cmp(&rhs_value)
-            .expect("unexpectedly got a None partial_cmp from non-NaN arguments");
-
-        QuantityOrdering::Ok(cmp)
+        // The unit conversion itself can produce a NaN (an infinite operand times a conversion
+        // factor that underflowed to zero, for example).
+        match lhs_value.partial_cmp(&rhs_value) {
+            Some(cmp) => QuantityOrdering::Ok(cmp),
+            None => QuantityOrdering::NanOperand,
+        }
     }
 
     /// Pretty prints with the given format options and optional dtoa config override.
